@@ -118,7 +118,21 @@ def _layout_params(c):
     return p
 
 
+_PRELUDE = {'numseg': 4, 'grads': [60.0, 45.0, 35.0, 30.0], 'thick': [0.8, 0.9, 1.1], 'depth': 4.5, 'tmax': 400.0, 'tsurf': 15.0, 'model': '4'}
+
+
 def _eval_walk(c, rec):
+    # an unrelated four-segment project is read and calculated first in the same process: the case then carries its own history
+    # (a single replayed case shows state that survives from one project into the next)
+    if c is not _PRELUDE:
+        pm, pe = sim.read_only(sim.render(_layout_params(_PRELUDE)))
+        if pe is None:
+            try:
+                with worker.quiet():
+                    pm.reserv.Calculate(pm)
+            except BaseException as ex:
+                if isinstance(ex, (KeyboardInterrupt, MemoryError)):
+                    raise
     params = _layout_params(c)
     case = {'kind': 'walk', 'layout': c, 'params': params}
     m, e = sim.read_only(sim.render(params))
